@@ -256,7 +256,7 @@ def create_loc_stack_checker(pred: Pred) -> LocStackChecker:
         )
 
     # tuple[()] is parametrized, but has no generic args
-    is_empty_tuple = norm.origin is tuple and pred is not tuple
+    is_empty_tuple = norm.origin is tuple and not norm.args
     if not is_generic(norm.origin) and not is_parametrized(pred) and not is_empty_tuple:
         return _create_loc_stack_checker_by_origin(norm.origin)   # this is only an optimization
     return ExactTypeLSC(norm)
